@@ -4,7 +4,7 @@ from hypothesis import strategies as st
 
 from ..refs import rainflow_ref as ref
 
-KINDS = ["int2", "int5", "int40", "grid", "dyadic", "float"]
+KINDS = ["int2", "int5", "int40", "grid", "dyadic", "float", "decimal"]
 
 
 def _elements(kind):
@@ -18,6 +18,9 @@ def _elements(kind):
         return st.integers(-2000, 2000).map(lambda i: i / 8.0)
     if kind == "dyadic":
         return st.tuples(st.integers(-4096, 4096), st.integers(-20, 20)).map(lambda t: t[0] * 2.0 ** t[1])
+    if kind == "decimal":
+        # values that are not representable in single precision, with many exactly repeated values (ties)
+        return st.integers(-30, 30).map(lambda i: i / 10.0)
     if kind == "float":
         return st.floats(-1e9, 1e9, allow_nan=False, allow_infinity=False, width=64).map(
             lambda x: round(x, 6) + 0.0)
@@ -29,7 +32,7 @@ def signals(draw, min_size=1, max_size=60, kinds=KINDS, exact_only=False):
     """A list of floats with forced structure: plateaus (also at reversals and at the
     ends), monotone runs, repeated extremes, constant signals, short signals."""
     if exact_only:
-        kinds = [k for k in kinds if k != "float"]
+        kinds = [k for k in kinds if k not in ("float", "decimal")]
     kind = draw(st.sampled_from(kinds))
     shape = draw(st.sampled_from(["plain", "plain", "plain", "short", "constant", "long"]))
     if shape == "short":
@@ -41,8 +44,10 @@ def signals(draw, min_size=1, max_size=60, kinds=KINDS, exact_only=False):
         base = draw(st.lists(_elements(kind), min_size=max(min_size, min(20, max_size)), max_size=max_size))
     else:
         base = draw(st.lists(_elements(kind), min_size=min_size, max_size=max(min_size, max_size // 2)))
-    ops = draw(st.lists(st.sampled_from(["plateau", "plateau_rev", "mono", "repeat_ext", "end_plateau",
-                                         "start_plateau"]), max_size=3))
+    op_names = ["plateau", "plateau_rev", "mono", "repeat_ext", "end_plateau", "start_plateau"]
+    if not exact_only:
+        op_names = op_names + ["near_plateau", "near_plateau"]
+    ops = draw(st.lists(st.sampled_from(op_names), max_size=3))
     sig = list(base)
     for op in ops:
         if len(sig) >= max_size:
@@ -57,6 +62,15 @@ def signals(draw, min_size=1, max_size=60, kinds=KINDS, exact_only=False):
                 pos = rev[draw(st.integers(0, len(rev) - 1))][0]
                 k = draw(st.integers(1, 4))
                 sig[pos:pos] = [sig[pos]] * k
+        elif op == "near_plateau":
+            # an almost-repeated value (difference 1 ulp ... 1e-9): NOT a plateau, the comparison must stay exact
+            rev = ref.interior_reversals(sig)
+            pos = rev[draw(st.integers(0, len(rev) - 1))][0] if rev and draw(st.booleans()) else draw(st.integers(0, len(sig) - 1))
+            x = sig[pos]
+            # relative to max(1, |x|): never denormal (the reversal test multiplies two differences; |diff| >= 1e-17 here)
+            delta = draw(st.sampled_from([2.3e-16, -2.3e-16, 1e-12, 1e-9, -1e-9])) * max(1.0, abs(x))
+            y = x + delta
+            sig.insert(pos + draw(st.integers(0, 1)), y)
         elif op == "end_plateau":
             sig.extend([sig[-1]] * draw(st.integers(1, 3)))
         elif op == "start_plateau":
